@@ -66,10 +66,13 @@ func (w *PublishWorld) sync(desc, loc string) {
 		}
 		// the listing after a publish / an operator mutation is the observable
 		// the property is stated over
-		if strings.HasPrefix(loc, "admin/publish") {
-			v.Props = append(v.Props, "C15")
-		} else if strings.HasPrefix(loc, "admin/") && loc != "admin/setup" {
-			v.Props = append(v.Props, "C14")
+		// (conservation-type rules only: eviction-order rules stay with C12)
+		if strings.HasPrefix(v.Rule, "C02.") || strings.HasPrefix(v.Rule, "C05.") {
+			if strings.HasPrefix(loc, "admin/publish") {
+				v.Props = append(v.Props, "C15")
+			} else if strings.HasPrefix(loc, "admin/") && loc != "admin/setup" {
+				v.Props = append(v.Props, "C14")
+			}
 		}
 		w.Res.Violations = append(w.Res.Violations, v)
 		w.Res.logf("  VIOLATION %s", v.String())
